@@ -55,6 +55,22 @@ fn main() {
         std::process::exit(2);
     }
     match args[1].as_str() {
+        "probe-depth" => {
+            // probe-depth <kind> <n> <stack_kb>: parse a nested input on a thread with the given stack
+            let kind: u64 = args[2].parse().unwrap();
+            let n: usize = args[3].parse().unwrap();
+            let kb: usize = args[4].parse().unwrap();
+            let input = match kind {
+                0 => format!("SELECT {}1{}", "(".repeat(n), ")".repeat(n)),
+                1 => format!("SELECT {}TRUE", "NOT ".repeat(n)),
+                2 => format!("SELECT {}1", "- ".repeat(n)),
+                3 => format!("SELECT * FROM {}t{}", "(SELECT * FROM ".repeat(n), ") AS x".repeat(n)),
+                4 => format!("SELECT {}0{}", "CASE WHEN a THEN ".repeat(n), " END".repeat(n)),
+                _ => format!("SELECT {}1{}", "ABS(".repeat(n), ")".repeat(n)),
+            };
+            let h = std::thread::Builder::new().stack_size(kb * 1024).spawn(move || vibesql_parser::Parser::parse_sql(&input).is_ok()).unwrap();
+            println!("ok parsed={:?}", h.join().unwrap());
+        }
         "list" => {
             for c in checks::registry() {
                 println!("{}", c.id);
@@ -165,6 +181,7 @@ fn run_parent(def: &'static CheckDef, tier: Tier, seed: u64) -> i32 {
     let mut shards: Vec<ShardState> = (0..nshards)
         .map(|i| ShardState { idx: i, from: 0, restarts: 0, child: None, out: PathBuf::new(), parts: vec![], done: false })
         .collect();
+    std::env::set_var("VV_RUN_TMP", &tmp);
     for st in shards.iter_mut() {
         spawn_shard(def, tier, seed, st, nshards, &tmp);
     }
@@ -198,7 +215,10 @@ fn run_parent(def: &'static CheckDef, tier: Tier, seed: u64) -> i32 {
                 continue;
             }
             // abnormal end: attribute to the current case
-            let cur = std::fs::read_to_string(st.out.with_extension("cur")).ok().and_then(|s| s.trim().parse::<u64>().ok());
+            let cur_text = std::fs::read_to_string(st.out.with_extension("cur")).unwrap_or_default();
+            let mut cur_parts = cur_text.trim_end_matches('\n').splitn(2, '\t');
+            let cur = cur_parts.next().and_then(|s| s.trim().parse::<u64>().ok());
+            let cur_label = cur_parts.next().unwrap_or("").to_string();
             use std::os::unix::process::ExitStatusExt;
             let why = if let Some(sig) = status.signal() {
                 format!("abort:signal={}", sig)
@@ -209,6 +229,7 @@ fn run_parent(def: &'static CheckDef, tier: Tier, seed: u64) -> i32 {
             };
             match cur {
                 Some(case) => {
+                    let why = if cur_label.is_empty() { why } else { format!("{}:{}", why, cur_label) };
                     abort_violations.push(json!({"sig": why, "case": case, "detail": {"shard": st.idx, "note": "process ended abnormally while running this case; replay the case to reproduce"}}));
                     st.restarts += 1;
                     if st.restarts > 40 {
